@@ -123,8 +123,13 @@ class MP:
         if n < 0:
             raise ValueError("negative power")
         r = MP.const(1)
-        for _ in range(n):
-            r = r * self
+        base = self
+        while n:  # square and multiply (exponents of 10**6 occur in the C20 ladder)
+            if n & 1:
+                r = r * base
+            n >>= 1
+            if n:
+                base = base * base
         return r
 
     def scale(self, c) -> "MP":
